@@ -60,8 +60,36 @@ static inline bool spec_is_ancestor_or_self(int a, int s) { for (int k = 0; k <=
 
 // ------------------------------------------------------------------------------------------------ user-state stubs
 struct Ev { int tag; };
+#ifdef VM_INJECT
+// C05: handlers injected through StateT<...> run before the state's own handler on the way down (pre-, update, react, query) and after
+// it on the way up (post-).  The injected handler and the own handler of a state leave marks for each other; a delivery that
+// reaches only one of the two, or in the wrong order, trips an assertion on the spot, leftovers at the end of the step.
+static uint8_t g_inj_mark[VM_NS], g_own_mark[VM_NS];
+static void inj_down(int id, int ph)  { VASSERT(C05, g_inj_mark[id] == 0, "an injected handler runs once per delivery"); g_inj_mark[id] = (uint8_t)(ph + 1); }
+static void own_down(int id, int ph)  { VASSERT(C05, g_inj_mark[id] == ph + 1, "an injected handler runs before the state's own handler on the way down"); g_inj_mark[id] = 0; }
+static void own_up(int id, int ph)    { VASSERT(C05, g_own_mark[id] == 0, "a state's own handler runs once per delivery"); g_own_mark[id] = (uint8_t)(ph + 1); }
+static void inj_up(int id, int ph)    { VASSERT(C05, g_own_mark[id] == ph + 1, "an injected handler runs after the state's own handler on the way up"); g_own_mark[id] = 0; }
 template <int ID>
-struct St : FSM::State {
+struct Inj : FSM::State {
+  using Base = FSM::State;
+  void preUpdate(typename Base::FullControl&)  { inj_down(ID, 0); }
+  void update(typename Base::FullControl&)     { inj_down(ID, 1); }
+  void postUpdate(typename Base::FullControl&) { inj_up(ID, 2); }
+  void preReact(const Ev&, typename Base::EventControl&)  { inj_down(ID, 3); }
+  void react(const Ev&, typename Base::EventControl&)     { inj_down(ID, 4); }
+  void postReact(const Ev&, typename Base::EventControl&) { inj_up(ID, 5); }
+  void query(Ev&, typename Base::ConstControl&) const     { inj_down(ID, 6); }
+};
+#define VM_STATE_BASE(ID) FSM::StateT<Inj<ID>>
+#define OWN_DOWN(ph) own_down(ID, ph)
+#define OWN_UP(ph)   own_up(ID, ph)
+#else
+#define VM_STATE_BASE(ID) FSM::State
+#define OWN_DOWN(ph)
+#define OWN_UP(ph)
+#endif
+template <int ID>
+struct St : VM_STATE_BASE(ID) {
   using Base = FSM::State;
 #ifdef VM_PAYLOAD
   template <typename TS> static void check_payloads(const TS& ts, bool all_present) {
@@ -150,8 +178,8 @@ struct St : FSM::State {
       default: c.schedule((StateID) dest); break;
     }
   }
-  void preUpdate(typename Base::FullControl&)  { VASSERT(C03, g_entered[ID], "preUpdate is delivered only to an entered state"); seq_push(ID, PH_PRE_UPDATE); trace_push(ID, Method::PRE_UPDATE); }
-  void update(typename Base::FullControl& c)   { VASSERT(C03, g_entered[ID], "update is delivered only to an entered state"); seq_push(ID, PH_UPDATE); trace_push(ID, Method::UPDATE); note_this(); issue(c);
+  void preUpdate(typename Base::FullControl&)  { VASSERT(C03, g_entered[ID], "preUpdate is delivered only to an entered state"); seq_push(ID, PH_PRE_UPDATE); trace_push(ID, Method::PRE_UPDATE); OWN_DOWN(0); }
+  void update(typename Base::FullControl& c)   { VASSERT(C03, g_entered[ID], "update is delivered only to an entered state"); seq_push(ID, PH_UPDATE); trace_push(ID, Method::UPDATE); OWN_DOWN(1); note_this(); issue(c);
 #ifdef VM_PLANS
     if (ID == g_actor) { if (g_action == 1) c.succeed(); if (g_action == 2) c.fail(); }
 #endif
@@ -160,9 +188,9 @@ struct St : FSM::State {
   void planSucceeded(typename Base::FullControl&) { ++g_plan_succeeded[ID]; }       // overriding stops the default hand-over to the enclosing region
   void planFailed(typename Base::FullControl&)    { ++g_plan_failed[ID]; }
 #endif
-  void postUpdate(typename Base::FullControl&) { VASSERT(C03, g_entered[ID], "postUpdate is delivered only to an entered state"); seq_push(ID, PH_POST_UPDATE); trace_push(ID, Method::POST_UPDATE); }
-  void preReact(const Ev&, typename Base::EventControl& c)  { VASSERT(C03, g_entered[ID], "preReact is delivered only to an entered state"); seq_push(ID, PH_PRE_REACT); trace_push(ID, Method::PRE_REACT);  if (ID == g_consumer && g_consume_phase == PH_PRE_REACT) c.consumeEvent(); }
-  void react(const Ev&, typename Base::EventControl& c)     { VASSERT(C03, g_entered[ID], "react is delivered only to an entered state");    seq_push(ID, PH_REACT); trace_push(ID, Method::REACT);      if (ID == g_consumer && g_consume_phase == PH_REACT) c.consumeEvent(); }
-  void postReact(const Ev&, typename Base::EventControl& c) { VASSERT(C03, g_entered[ID], "postReact is delivered only to an entered state"); seq_push(ID, PH_POST_REACT); trace_push(ID, Method::POST_REACT); if (ID == g_consumer && g_consume_phase == PH_POST_REACT) c.consumeEvent(); }
-  void query(Ev&, typename Base::ConstControl& c) const     { VASSERT(C03, g_entered[ID], "query is delivered only to an entered state");    seq_push(ID, PH_QUERY); trace_push(ID, Method::QUERY);      if (ID == g_consumer && g_consume_phase == PH_QUERY) c.consumeQuery(); }
+  void postUpdate(typename Base::FullControl&) { VASSERT(C03, g_entered[ID], "postUpdate is delivered only to an entered state"); seq_push(ID, PH_POST_UPDATE); trace_push(ID, Method::POST_UPDATE); OWN_UP(2); }
+  void preReact(const Ev&, typename Base::EventControl& c)  { VASSERT(C03, g_entered[ID], "preReact is delivered only to an entered state"); seq_push(ID, PH_PRE_REACT); trace_push(ID, Method::PRE_REACT); OWN_DOWN(3); if (ID == g_consumer && g_consume_phase == PH_PRE_REACT) c.consumeEvent(); }
+  void react(const Ev&, typename Base::EventControl& c)     { VASSERT(C03, g_entered[ID], "react is delivered only to an entered state");    seq_push(ID, PH_REACT); trace_push(ID, Method::REACT); OWN_DOWN(4); if (ID == g_consumer && g_consume_phase == PH_REACT) c.consumeEvent(); }
+  void postReact(const Ev&, typename Base::EventControl& c) { VASSERT(C03, g_entered[ID], "postReact is delivered only to an entered state"); seq_push(ID, PH_POST_REACT); trace_push(ID, Method::POST_REACT); OWN_UP(5); if (ID == g_consumer && g_consume_phase == PH_POST_REACT) c.consumeEvent(); }
+  void query(Ev&, typename Base::ConstControl& c) const     { VASSERT(C03, g_entered[ID], "query is delivered only to an entered state");    seq_push(ID, PH_QUERY); trace_push(ID, Method::QUERY); OWN_DOWN(6); if (ID == g_consumer && g_consume_phase == PH_QUERY) c.consumeQuery(); }
 };
